@@ -20,7 +20,7 @@ best=None
 for f in glob.glob(sys.argv[1]+'/*.json'):
     r=json.load(open(f))
     if sys.argv[2] and sys.argv[2] not in r.get('signature',''): continue
-    n=sum(len(v)+sum(1 for x in v if x) for v in (r['case'].get('lanes') or {}).values())
+    n=sum(len(v)+sum(1 for x in v if x) for v in (r['case'].get('lanes') or {}).values() if v)
     if best is None or n<best[0]: best=(n,f)
 print(best[1] if best else '')
 PY
